@@ -140,6 +140,12 @@ def interpret(data, deflate=None):
         if f.opcode != wire.CONT:
             cur = [f.opcode, f.rsv1, []]
         cur[2].append(f.payload)
+        if cur[0] == wire.TEXT and not deflate and not f.fin:
+            # the frame that carries the first offending byte is the violating frame, also
+            # when it is not the last fragment (on a connection without compression)
+            if utf8ref.first_offending_index(b"".join(cur[2])) is not None:
+                it.violation, it.violation_at, it.violation_frame = "text_bad_utf8", f.start, f
+                return it
         if not f.fin:
             continue
         opcode, rsv1, pieces = cur
